@@ -1,6 +1,6 @@
 (* Property C01 — column definitions are reproduced exactly and in order; none lost or invented (parser stage, core fragment). *)
 From Coq Require Import String Ascii List ZArith NArith Bool.
-From SDP Require Import Base PyStr LR RealTables Lexer Actions Parse Engine Seq Table TableProofs.
+From SDP Require Import Base PyStr LR RealTables Lexer Actions Parse Engine Seq KeywordProofs Entity Table TableProofs.
 Import ListNotations.
 Open Scope string_scope.
 
@@ -13,13 +13,26 @@ Open Scope string_scope.
    resolution as recorded in the tables, modelled semantic actions) returns exactly the entity [Table.denote]: the declared
    columns, in declaration order, each with its declared name, type text, size, nullability, default, key flags and reference;
    nothing dropped, invented, merged or reordered.
-   [Table.wf] only asks that names / type words / values are "plain" words (typed ID by the lexer wherever they stand, not one
-   of the words the actions treat specially), sizes are digit strings, and that a reference directly followed by NULL / NOT NULL is
-   written as that reference's own trailing clause (which is how the grammar reads it). *)
+   [Table.wf] asks that: the table / schema name is a plain word or one of the 97 grammar keywords accepted there; a column
+   name and a referenced column name is a plain word or one of the 88 grammar keywords accepted there (any letter case; the 12
+   rejected ones are derived below), and is not a word p_column treats specially (KEY); type words, default words, referenced
+   tables and referential actions are plain words (typed ID by the lexer wherever they stand) that the actions do not treat
+   specially; sizes are digit strings; a reference directly followed by NULL / NOT NULL is written as that reference's own
+   trailing clause (which is how the grammar reads it). *)
 Theorem C01_columns_exact : forall t norm silent, Table.wf norm t = true ->
   parse_lexemes norm silent (Table.lexemes t) = Ok (Some (Table.denote norm t)).
 Proof. exact table_parse. Qed.
 Print Assumptions C01_columns_exact.
+
+(* which grammar keywords can NOT name a column or a referenced column: derived on the real tables *)
+Theorem C01_keywords_not_accepted_as_column_name :
+  filter (fun k => negb (accepted_column_name k)) keywords =
+  ["AUTOINCREMENT"; "BY"; "CHECK"; "CLUSTER"; "COLLATE"; "CONSTRAINT"; "FOREIGN"; "INDEX"; "LIKE"; "PRIMARY"; "UNIQUE"; "WITH"].
+Proof. exact rejected_column_names. Qed.
+Print Assumptions C01_keywords_not_accepted_as_column_name.
+Theorem C01_accepted_column_keywords : colname_keywords = filter accepted_column_name keywords.
+Proof. exact colname_keywords_are_the_accepted. Qed.
+Print Assumptions C01_accepted_column_keywords.
 
 (* the closed invariant behind it: 136 (reference state, lexer flags, LR stack) configurations on the real tables *)
 Theorem C01_invariant_closed :
@@ -30,16 +43,16 @@ Print Assumptions C01_invariant_closed.
 (* non-vacuity: a three-column table with every option kind is well-formed under both settings, and the WHOLE statement
    pipeline (scanner included) on its text gives the specified entity *)
 Definition ex_table : table :=
-  mkTable "create" "Table" (Some "shop") "orders"
-    (mkCol "id" "bigint" None None [OPk "primary" "KEY"; ODefWord "DEFAULT" "7"])
+  mkTable "create" "Table" (Some "shop") "orders"     (* a keyword-named column, a keyword-named referenced column *)
+    (mkCol "Comment" "bigint" None None [OPk "primary" "KEY"; ODefWord "DEFAULT" "7"])
     [mkCol "price" "double" (Some "precision") (Some ("10", Some "2"))
        [ONull (NNot "not" "NULL"); OUnique "unique"; ODefStr "default" "'0.0'"];
      mkCol "customer" "varchar" None (Some ("30", None))
        [ODefNull "DEFAULT" "null";
-        ORef (mkRef "references" (Some "crm") "customers" (Some "cid") (Some ("ON", "delete", "cascade")) (Some ("on", "UPDATE", "restrict")) (Some (NNull "NULL")));
+        ORef (mkRef "references" (Some "crm") "customers" (Some "key") (Some ("ON", "delete", "cascade")) (Some ("on", "UPDATE", "restrict")) (Some (NNull "NULL")));
         ORef (mkRef "REFERENCES" None "people" None None None None)]].
 Definition ex_text : string :=
-  "create Table shop.orders ( id bigint primary KEY DEFAULT 7 , price double precision ( 10 , 2 ) not NULL unique default '0.0' , customer varchar ( 30 ) DEFAULT null references crm.customers ( cid ) ON delete cascade on UPDATE restrict NULL REFERENCES people ) ".
+  "create Table shop.orders ( Comment bigint primary KEY DEFAULT 7 , price double precision ( 10 , 2 ) not NULL unique default '0.0' , customer varchar ( 30 ) DEFAULT null references crm.customers ( key ) ON delete cascade on UPDATE restrict NULL REFERENCES people ) ".
 Example C01_example :
   Table.wf false ex_table = true /\ Table.wf true ex_table = true /\
   scan ex_text = Ok (Table.lexemes ex_table) /\
